@@ -10,6 +10,8 @@ use crate::worker::start::program::build_program_task;
 use crate::worker::streamer::StreamerRef;
 
 mod program;
+#[cfg(feature = "verif")]
+pub use program::verif_resources_env;
 
 pub const WORKER_EXTRA_PROCESS_PID: &str = "ProcessPid";
 
